@@ -173,6 +173,45 @@ class C14(Prop):
     def strategy(self, tier):
         return case_strategy(6 if tier == "quick" else 12)
 
+    _victims = None
+
+    def victims(self):
+        """corpus scripts that together use as many grammar keywords as possible (greedy cover, deterministic)"""
+        if self._victims is None:
+            import re
+
+            kws = set(gen.GRAMMAR_KEYWORDS)
+            have = [(i, set(re.findall(r"[A-Za-z_]+", it["ddl"].upper())) & kws) for i, it in enumerate(universe.corpus())
+                    if not (universe.corpus_flags(it) & {"K7", "K8"})]
+            chosen, covered = [], set()
+            while len(chosen) < 16:
+                i, ws = max(have, key=lambda x: (len(x[1] - covered), -x[0]))
+                if not ws - covered:
+                    break
+                chosen.append(i)
+                covered |= ws
+            type(self)._victims = chosen
+        return self._victims
+
+    def enumerated(self, tier):
+        # deterministic sweep: a statement that uses grammar keyword k as a *name* (41 positions incl. LIKE k) is parsed first, then
+        # two keyword-rich corpus scripts on fresh objects and the first object again - whatever the first parse taught the lexer
+        # must not reach the others
+        from . import c06
+
+        vs = self.victims()
+        tpls = list(range(len(KW_EXTRA))) + ["col_mid", "table", "pk_list", "index_col", "ref_col", "table_after_dot"]
+        n = 0
+        for k in gen.GRAMMAR_KEYWORDS:
+            for t in tpls:
+                n += 1
+                if tier == "quick" and n % 2:
+                    continue
+                src = {"t": "kw", "stmts": [[t, c06.kw_form(n % 3, k), 0]]}
+                objs = [{"src": src, "ctor": {}}] + [{"src": {"t": "corpus", "item": vs[(n + j) % len(vs)]}, "ctor": {}} for j in range(2)]
+                yield {"objs": objs, "steps": [{"o": 0, "fresh": False, "run": {"output_mode": "sql"}}, {"o": 1, "fresh": False, "run": {"output_mode": "hql"}},
+                                               {"o": 2, "fresh": False, "run": {"output_mode": "sql"}}, {"o": 0, "fresh": False, "run": {"output_mode": "sql"}}]}
+
     def fixed_cases(self):
         tbl = {"k": "tables", "c": {"tables": [{"schema": None, "name": "t_0", "items": [{"col": {"name": "a", "type": "int", "size": None, "opts": []}}]}]}}
         src = {"t": "gen", "blocks": [tbl], "layout": None, "ops": [{"style": "t_dash", "at": 0, "text": ["zq0x0"], "close_own_line": False, "flush": False}],
